@@ -121,6 +121,16 @@ def make_spec(bigsize=9000, nmsg=3, ndocs=4):
         {"p": "gm/file.txt", "k": "file", "d": "in gm\n"},
         {"p": "hello.pyg", "k": "file", "d": PYG, "x": True},
     ]
+    # one file per rule of the [GopherEntry] mapping table (image/gif, image/*, audio/*, binhex,
+    # application/*, multipart) so that a wrong or incomplete table shows in listings
+    import base64 as _b64
+    blob = {"b64": _b64.b64encode(bytes(range(64))).decode()}
+    for nm in ("photo.gif", "shot.jpg", "tool.bin", "sound.wav", "old.hqx", "paper.pdf", "page2.htm"):
+        spec.append({"p": "docs/" + nm, "k": "file", "d": blob})
+    spec.append({"p": "logo.png", "k": "file", "d": blob})
+    spec.append({"p": "docs/sub", "k": "dir"})
+    spec.append({"p": "docs/sub/deep.txt", "k": "file", "d": "deep\n"})
+    spec.append({"p": "docs/empty.txt", "k": "file", "d": ""})
     for i in range(ndocs):
         spec.append({"p": "docs/doc%d.txt" % i, "k": "file", "d": "doc %d\n" % i})
     spec.append({"p": "docs/doc0.txt.abstract", "k": "file", "d": "abstract of doc0\n"})
